@@ -442,11 +442,15 @@ def run(tier, seed):
         keys = [cfgdesc.code(k) for k in desc["keys"]]
         inst = {"name": "c08_" + name, "kbd": kbd, "keys": keys, "qmax": qmax,
                 "monitor": {"module": "P_C08", "params": params}, "invariants": [],
+                # idle-tick / history ages are not used by these configurations: a fixed cap (the default is derived
+                # from the largest number the parser hands out, which a broken parser can make huge)
+                "caps": {"age": 50},
                 # at most `seqb` macros running together and at most 4 (ring instance: 5) started without an idle
                 # point in between in the exhaustive instances (bursts of 5-6 are also driven on the code below)
                 "constraint": "SeqBound",
-                "extra_defs": "SeqBound == mon.err # \"\" \\/ (Len(K.L.seqs) <= %d /\\ mon.nreg <= %d)"
-                              % (seqb, 5 if seqb >= 4 else 4)}
+                "extra_defs": "SeqBound == mon.err # \"\" \\/ (Len(K.L.seqs) <= %d /\\ mon.nreg <= %d /\\ K.mcd <= 100)"
+                              % (seqb, 5 if seqb >= 4 else 4)}     # (K.mcd: a parser that hands out a huge cancel-on-press
+                                                                   # window must not make the graph endless; bodies last < 100 ticks)
         r = mc.check_instance(inst, wd, workers=8, timeout=1500 if quick else 3000)
         res.add_instance(r)
         log("[c08] %s: %s states, %s edges, drift %s, monerr %s, %.0fs" %
